@@ -148,3 +148,4 @@ MANIFEST = {
     "technique": "runtime monitoring: predicate monitors on every generator output + bounded-progress episode monitor",
     "design_ref": "DESIGN.md section 4 / C18",
 }
+MANIFEST["text"] += ' Round 7: odd requested sizes for the paired problems (documented rounding up), MCP set sizes against the configured range.'
